@@ -60,11 +60,7 @@ func schedBody(c scfg) func() {
 			return
 		}
 		conn, peer := ekit.Stream(c.unix, 3, 64)
-		if _, err := g.AddConn(conn); err != nil {
-			vsched.Fail("harness|AddConn: %v", err)
-			return
-		}
-		vsched.GoNamed("writer", func() {
+		doWrites := func() {
 			for i, n := range c.writes {
 				data := ekit.Payload(i+1, n)
 				if c.vec {
@@ -73,7 +69,30 @@ func schedBody(c scfg) func() {
 					_, _ = conn.Write(data)
 				}
 			}
-		})
+		}
+		inOpen := strings.HasPrefix(c.ender, "open")
+		if inOpen {
+			// the backlog is created, and the connection ended, while the connection is still being
+			// registered: by the open handler itself, or by another thread while the handler runs
+			g.OnOpen(func(*nbio.Conn) {
+				doWrites()
+				if c.ender == "open+close" {
+					_ = conn.Close()
+				} else {
+					vsched.Point()
+				}
+			})
+			if c.ender == "open|close" {
+				vsched.GoNamed("closer", func() { _ = conn.Close() })
+			}
+			_, _ = g.AddConn(conn)
+		} else if _, err := g.AddConn(conn); err != nil {
+			vsched.Fail("harness|AddConn: %v", err)
+			return
+		}
+		if !inOpen {
+			vsched.GoNamed("writer", doWrites)
+		}
 		vsched.GoNamed("peer", func() {
 			vsched.SetDaemon()
 			for {
@@ -120,7 +139,7 @@ func schedCheck(r *vsched.Result) string {
 }
 
 func init() {
-	rules = append(rules, "scheduled write-queue space: transport x epoll mode x allocator policy x write program (coalescing, growth) x ender (user Close, peer RST, peer close, overflow) with every interleaving of writer, poller flush, peer and closer within the preemption bound.")
+	rules = append(rules, "scheduled write-queue space: transport x epoll mode x allocator policy x write program (coalescing, growth) x ender (user Close, peer RST, peer close, overflow, backlog and Close inside the open handler, Close racing the open handler while the connection is still being registered) with every interleaving of writer, poller flush, peer and closer within the preemption bound.")
 	buildScheduled = func(tier string) []*vkit.Scenario {
 		thorough := tier == "thorough"
 		var out []*vkit.Scenario
@@ -131,7 +150,7 @@ func init() {
 						if move && pol != track.Exact {
 							continue
 						}
-						for _, ender := range []string{"close", "rst", "peerclose", "overflow", "none"} {
+						for _, ender := range []string{"close", "rst", "peerclose", "overflow", "none", "open+close", "open|close"} {
 							for wi, ws := range [][]int{{5, 2, 4}, {7}, {4, 4}} {
 								for _, vec := range []bool{false, true} {
 									if !thorough && (unix || pol == track.Pooled || wi != 0) {
